@@ -34,6 +34,41 @@ fn mk_query(name: &str, args: &[Term]) -> suiron::Goal {
     suiron::make_query(terms)
 }
 
+/// The query built by one of the documented constructors: make_query (style 0) or parse_query on its
+/// source text (styles 1-3: `name(args)`, with a trailing period, zero-arity also as bare `name`).
+/// Falls back to make_query when the query has no faithful source text.
+fn mk_query_styled(name: &str, args: &[Term], style: u32) -> suiron::Goal {
+    if style == 0 { return mk_query(name, args); }
+    let probe = Program { clauses: vec![Clause { name: name.to_string(), args: args.to_vec(), body: None }], qname: name.to_string(), qargs: args.to_vec() };
+    if !crate::props::solver::text_presentable(&probe) { return mk_query(name, args); }
+    let mut text = if args.is_empty() && style == 3 { name.to_string() } else { crate::render::term(&Term::Cmp(name.to_string(), args.to_vec()), &crate::render::CANON) };
+    if style == 2 { text.push('.'); }
+    match suiron::parse_query(&text) {
+        Ok(g) => g,
+        Err(_) => mk_query(name, args),
+    }
+}
+
+/// `$Name_12` -> `$Name_`: the number a still-unbound variable is displayed with depends on where the id
+/// counter stood when the query ran, which legitimately differs for a node that was made earlier.
+fn strip_var_numbers(t: &str) -> String {
+    let cs: Vec<char> = t.chars().collect();
+    let mut out = String::new();
+    let mut i = 0;
+    while i < cs.len() {
+        out.push(cs[i]);
+        if cs[i] == '$' {
+            i += 1;
+            while i < cs.len() && (cs[i].is_alphanumeric() || cs[i] == '_') { out.push(cs[i]); i += 1; }
+            // drop the trailing digits of the `_digits` suffix
+            while out.ends_with(|c: char| c.is_ascii_digit()) { out.pop(); }
+            continue;
+        }
+        i += 1;
+    }
+    out
+}
+
 fn fmt_solution(qargs: &[Term], display: &[String]) -> String {
     let mut parts = vec![];
     for (i, q) in qargs.iter().enumerate() { if let Term::Var(n) = q { parts.push(format!("{} = {}", n, display[i])); } }
@@ -67,39 +102,45 @@ enum Step {
     SolveAll { other: bool },
     CheapTimeout,
     Unknown,
+    /// rules for n new, unrelated predicates are added to the knowledge base between two queries
+    Grow { n: u32 },
 }
 
 impl QueryProp {
     // ------------------------------------------------------------------ C22
     fn history(&self, s: &mut dyn Src, rep: &mut Report) -> CaseResult {
-        let feat = Features { cut: true, not: true, output: true, anon: true, alias_heavy: false };
-        let (p, _) = gen_any_program(s, feat);
+        // the history is drawn before the program: a choice sequence that the program generator uses up
+        // would otherwise leave only the simplest history (exhausted sources draw 0)
         let n = 1 + s.draw(5);
         let mut steps = vec![];
         for _ in 0..n {
             let other = chance(s, 1, 3);
-            steps.push(match weighted(s, &[3, 2, 2, 2, 2, 3, 1]) {
+            steps.push(match weighted(s, &[3, 2, 2, 2, 2, 3, 1, 1]) {
                 0 => Step::Partial { other, k: 1 + s.draw(3) },
                 1 => Step::Exhaust { other, reasks: 0 },
                 2 => Step::Exhaust { other, reasks: 1 + s.draw(2) },
                 3 => Step::Solve { other, k: 1 + s.draw(4) },
                 4 => Step::SolveAll { other },
                 5 => Step::CheapTimeout,
-                _ => Step::Unknown,
+                6 => Step::Unknown,
+                _ => Step::Grow { n: 1 + s.draw(24) },
             });
         }
         let final_mode = s.draw(3);
+        let qstyle = s.draw(4);
         // rarely (each costs 1.1 s): the caller of the final query pauses for more than the timer period
         // between two answers, so a timer left behind by any earlier query fires while this one is live
         let pause = final_mode == 0 && s.draw(250) == 249;
-        self.run_history(&p, &steps, final_mode, pause, rep)
+        let feat = Features { cut: true, not: true, output: true, anon: true, alias_heavy: false };
+        let (p, _) = gen_any_program(s, feat);
+        self.run_history(&p, &steps, final_mode, pause, qstyle, rep)
     }
 
-    fn run_history(&self, p: &Program, steps: &[Step], final_mode: u32, pause: bool, rep: &mut Report) -> CaseResult {
+    fn run_history(&self, p: &Program, steps: &[Step], final_mode: u32, pause: bool, qstyle: u32, rep: &mut Report) -> CaseResult {
         let reference = solve_program(p, Limits::default());
         if reference.status != Status::Finished { return CaseResult::Discard("reference did not finish / out of domain".into()); }
         let expected: Vec<Vec<Term>> = reference.answers().into_iter().cloned().collect();
-        let case = format!("{}\nearlier queries: {:?}\nfinal query run with mode {}{}", p, steps, ["next_solution", "solve", "solve_all"][final_mode as usize],
+        let case = format!("{}\nearlier queries: {:?}\nfinal query built with {} and run with mode {}{}", p, steps, ["make_query", "parse_query(name(args))", "parse_query(name(args).)", "parse_query (bare name when it has no arguments)"][qstyle as usize], ["next_solution", "solve", "solve_all"][final_mode as usize],
                            if pause { ", its caller sleeping 1.1 s after the query was built and its first answer (or None) was returned" } else { "" });
         // another query on the same knowledge base: the first user predicate, all arguments fresh
         let other_q: (String, Vec<Term>) = {
@@ -121,13 +162,14 @@ impl QueryProp {
         let limit = expected.len() + 5;
         let r = guarded(budget, || -> Result<(Vec<String>, Vec<String>), CaseResult> {
             suiron::start_query();
-            let kb = build_kb(&p.clauses);
+            let mut kb = build_kb(&p.clauses);
+            let mut grown = 0u32;
             // baseline: the query as the first thing that happens
             let (b_strings, b_outs, b_tail, trunc) = enumerate(&kb, mk_query(&p.qname, &p.qargs), &p.qargs, limit);
             if trunc || b_strings.len() != expected.len() { return Err(CaseResult::Discard("baseline differs from the reference (C01's business)".into())); }
             // history
             for st in steps {
-                let pick_q = |other: bool| -> (suiron::Goal, Vec<Term>) { if other { (mk_query(&other_q.0, &other_q.1), other_q.1.clone()) } else { (mk_query(&p.qname, &p.qargs), p.qargs.clone()) } };
+                let pick_q = |other: bool| -> (suiron::Goal, Vec<Term>) { if other { (mk_query_styled(&other_q.0, &other_q.1, (qstyle + 1) % 4), other_q.1.clone()) } else { (mk_query_styled(&p.qname, &p.qargs, (qstyle + 2) % 4), p.qargs.clone()) } };
                 match st {
                     Step::Partial { other, k } => {
                         let (g, _) = pick_q(*other);
@@ -162,6 +204,14 @@ impl QueryProp {
                         let sn = suiron::make_base_node(Rc::new(mk_query("no_such_predicate", &[Term::var("$Z")])), &kb);
                         let _ = suiron::next_solution(sn);
                     }
+                    Step::Grow { n } => {
+                        // no query is live here (every node above has been dropped), so the knowledge base may be extended
+                        for _ in 0..*n {
+                            grown += 1;
+                            let head = U::SComplex(vec![U::Atom(format!("zz_added_{}", grown)), U::SInteger(grown as i64)]);
+                            suiron::add_rules(&mut kb, vec![suiron::make_fact(head)]);
+                        }
+                    }
                 }
             }
             let _ = capture::take();
@@ -169,7 +219,7 @@ impl QueryProp {
             let (strings, outs): (Vec<String>, Vec<String>) = match final_mode {
                 0 if pause => {
                     // enumerate by hand: first answer, 1.1 s of doing nothing, the rest
-                    let goal = Rc::new(mk_query(&p.qname, &p.qargs));
+                    let goal = Rc::new(mk_query_styled(&p.qname, &p.qargs, qstyle));
                     let sn = suiron::make_base_node(Rc::clone(&goal), &kb);
                     let (mut s2, mut o2) = (vec![], vec![]);
                     let mut first = true;
@@ -184,17 +234,17 @@ impl QueryProp {
                     (s2, o2)
                 }
                 0 => {
-                    let (s2, o2, t2, _) = enumerate(&kb, mk_query(&p.qname, &p.qargs), &p.qargs, limit);
+                    let (s2, o2, t2, _) = enumerate(&kb, mk_query_styled(&p.qname, &p.qargs, qstyle), &p.qargs, limit);
                     let mut o = o2; o.push(t2); (s2, o)
                 }
                 1 => {
-                    let sn = suiron::make_base_node(Rc::new(mk_query(&p.qname, &p.qargs)), &kb);
+                    let sn = suiron::make_base_node(Rc::new(mk_query_styled(&p.qname, &p.qargs, qstyle)), &kb);
                     let mut v = vec![];
                     loop { let r = suiron::solve(Rc::clone(&sn)); if r == NO_MORE || r == TIMEOUT_MSG || v.len() > limit { if r == TIMEOUT_MSG { v.push(r); } break; } v.push(r); }
                     (v, vec![capture::take()])
                 }
                 _ => {
-                    let sn = suiron::make_base_node(Rc::new(mk_query(&p.qname, &p.qargs)), &kb);
+                    let sn = suiron::make_base_node(Rc::new(mk_query_styled(&p.qname, &p.qargs, qstyle)), &kb);
                     let v = suiron::solve_all(sn);
                     (v, vec![capture::take()])
                 }
@@ -219,6 +269,9 @@ impl QueryProp {
                 if steps.iter().any(|x| matches!(x, Step::Exhaust { reasks, .. } if *reasks > 0)) { rep.class("history-contains-re-asked-query"); }
                 rep.class(&format!("final-mode:{}", ["next_solution", "solve", "solve_all"][final_mode as usize]));
                 if pause { rep.class("final-query-paused-1.1s-between-answers"); }
+                if steps.iter().any(|x| matches!(x, Step::Grow { .. })) { rep.class("history-adds-rules-to-the-knowledge-base"); }
+                rep.class(if qstyle == 0 { "final-query:make_query" } else { "final-query:parse_query" });
+                if p.qargs.is_empty() { rep.class("final-query-has-no-arguments"); }
                 if steps.iter().any(|x| matches!(x, Step::Solve { .. })) { rep.class("history-contains-solve-calls"); }
                 if partial && !strings.is_empty() { rep.nontrivial(fnv(&case)); rep.sample(json!({"program": format!("{}", p), "earlier": format!("{:?}", steps), "answers": strings})); }
                 CaseResult::Pass
@@ -230,6 +283,9 @@ impl QueryProp {
 
     // ------------------------------------------------------------------ C23
     fn fast(&self, s: &mut dyn Src, rep: &mut Report) -> CaseResult {
+        // 0: nothing special; 1: the nodes given to solve_all / solve were made before another query timed out
+        // (its timer fired and was cancelled, as solve() does); 2: the same, with the timeout after solve_all
+        let stale = match s.draw(6) { 0 => 1, 1 => 2, _ => 0 };
         let feat = Features { cut: true, not: true, output: false, anon: true, alias_heavy: false };
         let (p, _) = gen_any_program(s, feat);
         let reference = solve_program(&p, Limits::default());
@@ -242,17 +298,27 @@ impl QueryProp {
             let (want, _, _, trunc) = enumerate(&kb, mk_query(&p.qname, &p.qargs), &p.qargs, expected.len() + 5);
             if trunc || want.len() != expected.len() { return Err(CaseResult::Discard("baseline differs from the reference (C01's business)".into())); }
             // solve_all
-            let t0 = Instant::now();
             let sn = suiron::make_base_node(Rc::new(mk_query(&p.qname, &p.qargs)), &kb);
+            let sn_for_solve = suiron::make_base_node(Rc::new(mk_query(&p.qname, &p.qargs)), &kb);
+            let timed_out_query = || {
+                let t = suiron::start_query_timer(1);
+                let t0 = Instant::now();
+                while !suiron::query_stopped() && t0.elapsed() < Duration::from_millis(500) { std::thread::sleep(Duration::from_micros(200)); }
+                suiron::cancel_timer(t);
+            };
+            if stale == 1 { timed_out_query(); }
+            let t0 = Instant::now();
             let all = suiron::solve_all(sn);
             let el = t0.elapsed();
             if all.last().map_or(false, |x| x == TIMEOUT_MSG) {
                 if el < Duration::from_millis(500) { return Err(fail(self.id, "false-timeout", format!("solve_all reported a timeout after {:?}: {:?}", el, all), case.clone())); }
                 return Err(CaseResult::Discard("fast query took > 0.5 s of wall time (machine overloaded): inconclusive".into()));
             }
-            if all != want { return Err(fail(self.id, "solve_all-wrong", format!("answers: {:?}\nsolve_all: {:?}", want, all), case.clone())); }
+            let norm = |v: &Vec<String>| -> Vec<String> { if stale != 0 { v.iter().map(|x| strip_var_numbers(x)).collect() } else { v.clone() } };
+            if norm(&all) != norm(&want) { return Err(fail(self.id, "solve_all-wrong", format!("answers: {:?}\nsolve_all: {:?}", want, all), case.clone())); }
             // solve, one answer at a time
-            let sn = suiron::make_base_node(Rc::new(mk_query(&p.qname, &p.qargs)), &kb);
+            if stale == 2 { timed_out_query(); }
+            let sn = if stale != 0 { sn_for_solve } else { suiron::make_base_node(Rc::new(mk_query(&p.qname, &p.qargs)), &kb) };
             let mut got = vec![];
             loop {
                 let t0 = Instant::now();
@@ -267,11 +333,11 @@ impl QueryProp {
                 if done || got.len() > want.len() + 2 { break; }
             }
             let mut want2 = want.clone(); want2.push(NO_MORE.to_string());
-            if got != want2 { return Err(fail(self.id, "solve-wrong", format!("expected {:?}\nsolve gave {:?}", want2, got), case.clone())); }
+            if norm(&got) != norm(&want2) { return Err(fail(self.id, "solve-wrong", format!("expected {:?}\nsolve gave {:?}", want2, got), case.clone())); }
             Ok(want.len())
         });
         match r {
-            Ok(Ok(n)) => { rep.class("class:fast"); if n >= 2 { rep.nontrivial(fnv(&case)); rep.sample(json!({"program": case, "answers": n})); } CaseResult::Pass }
+            Ok(Ok(n)) => { rep.class("class:fast"); if stale != 0 { rep.class("fast:nodes-made-before-another-query-timed-out"); } if n >= 2 { rep.nontrivial(fnv(&case)); rep.sample(json!({"program": case, "answers": n})); } CaseResult::Pass }
             Ok(Err(c)) => c,
             Err(e) => fail(self.id, "engine-failure", format!("{:?}", e), case),
         }
@@ -280,10 +346,10 @@ impl QueryProp {
     /// The harness plays the timer thread: stop_query() (all the timer callback does) is called on entry
     /// to the k-th next_solution of a solve_all / solve run over a generated program, for several k.
     fn simulated(&self, s: &mut dyn Src, rep: &mut Report) -> CaseResult {
-        let feat = Features { cut: true, not: true, output: false, anon: true, alias_heavy: false };
-        let (p, _) = gen_any_program(s, feat);
         let ks: Vec<u32> = (0..4).map(|_| s.draw(1024)).collect();
         let use_solve = chance(s, 1, 3);
+        let feat = Features { cut: true, not: true, output: false, anon: true, alias_heavy: false };
+        let (p, _) = gen_any_program(s, feat);
         let reference = solve_program(&p, Limits::default());
         if reference.status != Status::Finished { return CaseResult::Discard("reference did not finish / out of domain".into()); }
         let expected: Vec<Vec<Term>> = reference.answers().into_iter().cloned().collect();
@@ -409,6 +475,15 @@ impl QueryProp {
                     if !done { v.push(r); }
                     if done || v.len() > expected.len() + 2 { break; }
                 }
+                if to {
+                    // the user asks the same node again (what the query program's loop does): whatever comes back, another
+                    // timeout message needs another second of searching, and an answer must be one of the query's answers
+                    let c1 = Instant::now();
+                    let again = suiron::solve(Rc::clone(&sn));
+                    let el = c1.elapsed().as_secs_f64();
+                    if again == TIMEOUT_MSG && el < 0.95 { return Err(fail(self.id, "false-timeout", format!("asked again after a timeout: timeout message after only {:.3} s (the limit is 1 s)", el), case.clone())); }
+                    if again != TIMEOUT_MSG && again != NO_MORE && !expected.contains(&again) { return Err(fail(self.id, "not-an-answer", format!("asked again after a timeout: {:?} is not among the answers {:?}", again, expected), case.clone())); }
+                }
                 (v, to, last)
             } else {
                 let mut v = suiron::solve_all(sn);
@@ -529,14 +604,17 @@ impl Property for QueryProp {
         match self.aspect {
             QAspect::History => {
                 let p = parse_program("item(1). item(2). ?- item($X).").unwrap();
-                out.push(("after-timeout".into(), self.run_history(&p, &[Step::CheapTimeout], 2, false, rep)));
-                out.push(("after-timeout-next-solution".into(), self.run_history(&p, &[Step::SolveAll { other: false }, Step::CheapTimeout], 0, false, rep)));
-                out.push(("after-partial".into(), self.run_history(&p, &[Step::Partial { other: false, k: 1 }, Step::Solve { other: false, k: 5 }], 1, false, rep)));
+                out.push(("after-timeout".into(), self.run_history(&p, &[Step::CheapTimeout], 2, false, 0, rep)));
+                out.push(("after-timeout-next-solution".into(), self.run_history(&p, &[Step::SolveAll { other: false }, Step::CheapTimeout], 0, false, 0, rep)));
+                out.push(("after-partial".into(), self.run_history(&p, &[Step::Partial { other: false, k: 1 }, Step::Solve { other: false, k: 5 }], 1, false, 0, rep)));
+                // a query without arguments, built from text in its three spellings, right after a timed-out query
+                let p0 = parse_program("item(1). item(2). go :- item($X), $X > 1. ?- go.").unwrap();
+                for st in 1..4 { out.push((format!("zero-arity-parsed-after-timeout-{}", st), self.run_history(&p0, &[Step::CheapTimeout], st % 3, false, st, rep))); }
                 // every way a solve / solve_all call can end, then a slowly consumed query (1.1 s pause)
                 let p3 = parse_program("item(1). item(2). item(3). two($X, $Y) :- item($X), item($Y). ?- two($X, $Y).").unwrap();
-                out.push(("paused-after-solve-to-no-more".into(), self.run_history(&p3, &[Step::Solve { other: false, k: 12 }], 0, true, rep)));
-                out.push(("paused-after-solve-partial-and-solve-all".into(), self.run_history(&p3, &[Step::Solve { other: true, k: 2 }, Step::SolveAll { other: false }, Step::Unknown], 0, true, rep)));
-                out.push(("paused-after-timeout-and-reasks".into(), self.run_history(&p3, &[Step::CheapTimeout, Step::Exhaust { other: false, reasks: 2 }, Step::Solve { other: true, k: 5 }], 0, true, rep)));
+                out.push(("paused-after-solve-to-no-more".into(), self.run_history(&p3, &[Step::Solve { other: false, k: 12 }], 0, true, 0, rep)));
+                out.push(("paused-after-solve-partial-and-solve-all".into(), self.run_history(&p3, &[Step::Solve { other: true, k: 2 }, Step::SolveAll { other: false }, Step::Unknown], 0, true, 0, rep)));
+                out.push(("paused-after-timeout-and-reasks".into(), self.run_history(&p3, &[Step::CheapTimeout, Step::Exhaust { other: false, reasks: 2 }, Step::Solve { other: true, k: 5 }], 0, true, 0, rep)));
             }
             QAspect::Timeout => {
                 // always: queries on both sides of the limit (sized by calibration), and one stray-timer round
